@@ -42,6 +42,8 @@ struct SDecl {
     stateless: bool,
     /// `RuntimeSource::EventType/Stream` name (what a later sequence step naming this stream resolves to)
     rsrc: Option<String>,
+    /// the names the declaration refers to
+    refs: Vec<String>,
 }
 
 #[derive(Clone, Debug)]
@@ -122,7 +124,7 @@ fn render(sp: &Spec, decl_before: &[SDecl]) -> SDecl {
     let (c, n, dd) = (sp.c, sp.n, sp.d);
     let kind = sp.kind.clone();
     let mut d = SDecl { name: sp.name.clone(), body: String::new(), subs: vec![s0.clone()], prim: vec![s0.clone()],
-        join: false, proc_: false, kind: kind.clone(), nops: 0, stateless: false, rsrc: Some(s0.clone()) };
+        join: false, proc_: false, kind: kind.clone(), nops: 0, stateless: false, rsrc: Some(s0.clone()), refs: vec![s0.clone()] };
     // `resolve_event_type` of `compile_ops_with_sequences`: a sequence step that names an already
     // registered stream is subscribed under that stream's own source (one level)
     let resolve = |n: &String| -> String {
@@ -148,11 +150,13 @@ fn render(sp: &Spec, decl_before: &[SDecl]) -> SDecl {
             d.nops = 1;
             if kind == "seq" { d.body.push_str("\n    .emit(k: a.k, x: b.x)"); d.nops = 2; }
             d.subs = vec![s0.clone(), resolve(&s0), resolve(&s1)];
+            d.refs = vec![s0.clone(), s1.clone()];
         }
         "seq3" => {
             d.body = format!("{s0} as a\n    -> {s1} as b\n    -> {s2} where x > {c} as c\n    .emit(k: a.k, x: c.x)");
             d.nops = 2;
             d.subs = vec![s0.clone(), resolve(&s0), resolve(&s1), resolve(&s2)];
+            d.refs = vec![s0.clone(), s1.clone(), s2.clone()];
         }
         "join" => {
             d.body = format!("join({s0}, {s1})\n    .on({s0}.k == {s1}.k)\n    .window(10s)\n    .select(k: {s0}.k, x: {s0}.x + {s1}.x)\n    .emit(k: k, x: x)");
@@ -166,6 +170,7 @@ fn render(sp: &Spec, decl_before: &[SDecl]) -> SDecl {
                 }
             };
             d.subs = vec![under(&s0), under(&s1)];
+            d.refs = vec![s0.clone(), s1.clone()];
             d.prim = vec![];
             d.rsrc = None;
         }
@@ -173,6 +178,7 @@ fn render(sp: &Spec, decl_before: &[SDecl]) -> SDecl {
             d.body = format!("merge({s0}, {s1})\n    .emit(k: k, x: x)");
             d.nops = 1;
             d.subs = vec![s0.clone(), s1.clone()];
+            d.refs = vec![s0.clone(), s1.clone()];
             d.prim = vec![s0.clone(), s1];
             d.stateless = true;
             d.rsrc = None;
@@ -187,6 +193,7 @@ fn render(sp: &Spec, decl_before: &[SDecl]) -> SDecl {
     }
     d.subs = dedup(&d.subs);
     d.prim = dedup(&d.prim);
+    d.refs = dedup(&d.refs);
     d
 }
 
@@ -194,6 +201,32 @@ fn render_prog(specs: &[Spec]) -> Prog {
     let mut streams: Vec<SDecl> = Vec::new();
     for sp in specs { let d = render(sp, &streams); streams.push(d); }
     Prog { streams }
+}
+
+/// does some stream (transitively) consume its own outputs? (a stream named like an event type it consumes counts)
+fn cyclic(p: &Prog) -> bool {
+    let names: Vec<&String> = p.streams.iter().map(|d| &d.name).collect();
+    for start in &p.streams {
+        let mut seen: Vec<&String> = Vec::new();
+        let mut todo: Vec<&String> = start.subs.iter().chain(start.refs.iter()).filter(|r| names.contains(r)).collect();
+        while let Some(n) = todo.pop() {
+            if *n == start.name { return true; }
+            if seen.contains(&n) { continue; }
+            seen.push(n);
+            for d in p.streams.iter().filter(|d| &d.name == n) {
+                todo.extend(d.subs.iter().chain(d.refs.iter()).filter(|r| names.contains(r)));
+            }
+        }
+    }
+    false
+}
+
+/// sequences inside a cycle multiply their matches at every depth level (10 levels): in cyclic programs
+/// they are replaced by filters, so that every run stays small
+fn tame(specs: &mut Vec<Spec>) {
+    if cyclic(&render_prog(specs)) {
+        for sp in specs.iter_mut() { if sp.kind.starts_with("seq") { sp.kind = "femit".to_string(); } }
+    }
 }
 
 fn dedup_usize(v: &[usize]) -> Vec<usize> {
@@ -237,6 +270,7 @@ fn gen_specs(rng: &mut Rng) -> Vec<Spec> {
         let hint = match shape { 7 if i > 0 && i + 1 == n && n > 2 => Some(*rng.pick(&["seq", "join", "merge", "seq3"])), _ => None };
         specs.push(gen_spec(rng, &names[i], &src, hint));
     }
+    tame(&mut specs);
     specs
 }
 
@@ -409,7 +443,8 @@ fn emit_prog_lines(ctx: &mut Ctx, it: &mut Intern, word: &str, prog: &Prog) {
         // def = a fingerprint of the declaration text (what a structural comparison sees)
         let mut h: u64 = 1469598103934665603;
         for b in d.body.bytes() { h = (h ^ b as u64).wrapping_mul(1099511628211); }
-        ctx.directive(&format!("{} {} subs={} prim={} join={} proc={} nops={} def={}", word, id, l(subs), l(prim), d.join as u8, d.proc_ as u8, d.nops, h % 1_000_000_007));
+        let refs: Vec<String> = d.refs.iter().map(|s| it.ty(s).to_string()).collect();
+        ctx.directive(&format!("{} {} subs={} prim={} join={} proc={} nops={} def={} refs={}", word, id, l(subs), l(prim), d.join as u8, d.proc_ as u8, d.nops, h % 1_000_000_007, l(refs)));
     }
 }
 
@@ -601,6 +636,7 @@ fn scenario_reload(ctx: &mut Ctx, runner: &Runner, sc: usize) {
         3 => { let a = edit_once(&mut ctx.rng, &mut specs2); let b = edit_once(&mut ctx.rng, &mut specs2); format!("{}+{}", a, b) }
         _ => edit_once(&mut ctx.rng, &mut specs2).to_string(),
     };
+    tame(&mut specs2);
     let p1 = render_prog(&specs);
     let p2 = render_prog(&specs2);
     let (vpl1, vpl2) = (p1.vpl(), p2.vpl());
@@ -612,6 +648,7 @@ fn scenario_reload(ctx: &mut Ctx, runner: &Runner, sc: usize) {
     let mut it = Intern::default();
     for t in INPUT_TYPES { it.ty(t); }
     ctx.directive(&format!("new {} # {} ==[{}]==> {}", sc, p1.one_line(), what, p2.one_line()));
+    if std::env::var("VERIF_ROUTE_TIMERS").is_ok() { eprintln!("scenario {} # {} ==[{}]==> {} ({} events, path {})", sc, p1.one_line(), what, p2.one_line(), nev, path.name()); }
     emit_prog_lines(ctx, &mut it, "stream", &p1);
     emit_prog_lines(ctx, &mut it, "rstream", &p2);
     for d in &p2.streams { ctx.count(&format!("kind:{}", d.kind)); }
@@ -665,7 +702,16 @@ fn scenario_reload(ctx: &mut Ctx, runner: &Runner, sc: usize) {
         let big = calls_pre.len() + calls_post.len() > 100;
         if big && k != 0 && k != events.len() { ctx.count("iso:omitted-heavy-run"); continue; }
         for d2 in &p2.streams {
-            let unchanged = p1.streams.iter().any(|d1| d1.name == d2.name && d1.body == d2.body && d1.subs == d2.subs);
+            // unchanged: same declaration, same registrations, and no stream it refers to was edited, added or removed
+            let decl_changed = |n: &String| -> bool {
+                match (p1.streams.iter().rev().find(|d| &d.name == n), p2.streams.iter().rev().find(|d| &d.name == n)) {
+                    (Some(a), Some(b)) => a.body != b.body,
+                    (None, None) => false,
+                    _ => true,
+                }
+            };
+            let unchanged = p1.streams.iter().any(|d1| d1.name == d2.name && d1.body == d2.body && d1.subs == d2.subs)
+                && !d2.refs.iter().any(|n| decl_changed(n));
             let post: Vec<&verif::StreamCall> = calls_post.iter().filter(|c| c.stream == d2.name).collect();
             if post.is_empty() { continue; }
             let mut fed: Vec<Event> = Vec::new();
